@@ -205,6 +205,12 @@ func c01One(o *kernel.Outcome, step int, ch *kernel.Chooser, alg jose.SignatureA
 		if !ch.Bool(1, 3) {
 			c.exp, b = now.Add(c.offset).Add(time.Duration(ch.Range(5, 3600))*time.Second), false
 		}
+		if ch.Bool(1, 24) {
+			// a legal far-away end: NumericDate values of thirteen digits are seconds too
+			c.exp, b = time.Unix(1_000_000_000_000+int64(ch.Int(1<<30)), 0), false
+			c.desc = append(c.desc, "exp-thirteen-digits")
+			o.Probe("time-claims-of-thirteen-digits")
+		}
 		onBoundary = onBoundary || b
 		c.hasExp = true
 		c.claims["exp"] = c.exp.Unix()
@@ -224,6 +230,12 @@ func c01One(o *kernel.Outcome, step int, ch *kernel.Chooser, alg jose.SignatureA
 			}
 		default:
 			c.iat = now.Add(-time.Duration(ch.Range(3, 8)) * time.Second)
+		}
+		if ch.Bool(1, 24) {
+			// what a provider that writes milliseconds would send: as seconds, tens of thousands of years ahead
+			c.iat, b = time.Unix(now.Unix()*1000-int64(ch.Range(0, 5000)), 0), false
+			c.desc = append(c.desc, "iat-thirteen-digits")
+			o.Probe("time-claims-of-thirteen-digits")
 		}
 		onBoundary = onBoundary || b
 		c.hasIat = true
